@@ -84,10 +84,11 @@ def look (c : IntegCall) (p : Slot) : Option Slot := c.args.lookup p
 def integName : Nat → String
   | 1 => "one_pop" | 2 => "two_pops" | 3 => "three_pops" | 4 => "four_pops" | 5 => "five_pops" | _ => ""
 
-/-- population k receives nu[k], gamma[k], h[k] and M[k,j] as m_{k+1,j+1} -/
+/-- population k receives nu[k], an entry of the (uniform, see `gammaHUniform`) gamma and h lists, and M[k,j] as m_{k+1,j+1} -/
 def popWiredNoFrozen (c : IntegCall) (k : Nat) : Bool :=
-  look c (Slot.nu k) == some (Slot.nu k) && look c (Slot.gamma k) == some (Slot.gamma k)
-  && look c (Slot.h k) == some (Slot.h k)
+  look c (Slot.nu k) == some (Slot.nu k)
+  && (List.range c.npop).any (fun j => look c (Slot.gamma k) == some (Slot.gamma j))
+  && (List.range c.npop).any (fun j => look c (Slot.h k) == some (Slot.h j))
   && (List.range c.npop).all fun j => j == k || look c (Slot.M k j) == some (Slot.M k j)
 
 /-- … and frozen[k] -/
